@@ -38,6 +38,13 @@ for conv in range(4):
         cases.append(("m_replay_number_literal", [u8(conv), u8(1), u8(1), u8(3), u8(0), u8(0), u8(0)] + [u8(4)] * 3 + [u8(note), u8(2)]))
 cases += [("m_replay_number_literal", [u8(0), u8(0), u8(1), u8(20), u8(0), u8(0), u8(0)] + [u8(9)] * 20 + [u8(0), u8(0)]),
           ("m_replay_number_literal", [u8(1), u8(1), u8(3), u8(2), u8(3), u8(3), u8(2)] + [u8(7)] * 10 + [u8(1), u8(0)])]
+def lit(kind, conv, text, want):
+    raw = text.encode("utf-8")
+    return ("m_replay_literal_string", [u8(kind), u8(conv), u8(len(raw))] + [u8(b) for b in raw] + [f64(want)])
+cases += [lit(0, 0, "1,111.1", 1111.1), lit(0, 1, "-2.345.678,25", -2345678.25), lit(0, 0, "12k", 12000.0), lit(1, 0, "1,111.1%", 1111.1), lit(1, 1, "%1.250,5", 1250.5),
+          lit(2, 0, "$1,500.25", 1500.25), lit(2, 1, "1.500 usd", 1500.0), lit(2, 0, "2k usd", 2000.0), lit(2, 0, "$3M", 3e6), lit(2, 1, "15  EUR", 15.0), lit(2, 0, "7 try", 7.0),
+          lit(3, 0, "23:59", 0.0), lit(3, 0, "7:05:09", 0.0), lit(3, 0, "11 pm", 0.0), lit(3, 0, "9:30AM", 0.0),
+          lit(4, 0, "0xFF", 255.0), lit(4, 0, "0o17", 15.0), lit(4, 0, "0b101", 5.0)]
 r = engine_m.Replayer()
 bad = 0
 try:
